@@ -41,7 +41,7 @@ def gen_history(rng, cfg, docgen, ntx=(1, 5), maxops=6, p_cancel=0.1,
                 names.append(nm)
                 ops.append(["add_field", nm])
         elif schema_changes and rng.random() < 0.08:
-            cand = [n for n in names if n not in ("k", "u", "t")]
+            cand = [n for n in names if n not in ("k", "u", "t") and "*" not in n]
             if cand:
                 nm = rng.choice(cand)
                 ops.append(["remove_field", nm])
@@ -230,7 +230,7 @@ class HistActor(object):
 
             def filt(d):
                 return dict((k, v) for k, v in d.items()
-                            if (k in names) or (k.startswith("_") and k != "_boost"
+                            if (k in names) or (not k.startswith("_") and k in w.schema) or (k.startswith("_") and k != "_boost"
                                                 and k.split("_", 2)[-1].replace("_boost", "") in names
                                                 or k == "_boost"))
             if kind == "group":
